@@ -37,9 +37,18 @@ except Exception:
 _builtin = set(PROPS)
 if _os.path.isdir(_rd):
     for _f in sorted(_os.listdir(_rd)):
-        if _f.endswith(".txt"):
+        if _f.endswith(".txt") and not _f.endswith(".dev.txt"):
             _id = _f[:-4]
             if _id in _builtin and _id not in _released and not _os.environ.get("PYVC_DEV"):
                 continue
             with open(_os.path.join(_rd, _f)) as _fh:
                 PROPS[_id] = [l.strip() for l in _fh if l.strip() and not l.startswith("#")]
+    # extension of a released property under development: registry/<ID>.dev.txt lists ADDITIONAL modules, read only
+    # with PYVC_DEV=1 (never by a registered command)
+    if _os.environ.get("PYVC_DEV"):
+        for _f in sorted(_os.listdir(_rd)):
+            if _f.endswith(".dev.txt"):
+                _id = _f[:-8]
+                with open(_os.path.join(_rd, _f)) as _fh:
+                    PROPS[_id] = list(PROPS.get(_id, [])) + [l.strip() for l in _fh
+                                                               if l.strip() and not l.startswith("#") and l.strip() not in PROPS.get(_id, [])]
